@@ -172,6 +172,23 @@ def main():
                              {"term": t, "model": g, "impl": e})
         except Exception as e:  # noqa: BLE001
             res.broken.append({"what": "correspondence C12 folding: model evaluation failed", "detail": str(e)[-1200:]})
+    # ---- corpus: noiseless series (constant up to a few ulp of rounding drift) on which an extrapolation once failed
+    corpus = [([1, 1.5, 2, 2.5, 3, 3.5, 4],
+               [-0.4999999999999998, -0.4999999999999998, -0.49999999999999967, -0.49999999999999944, -0.49999999999999944,
+                -0.49999999999999944, -0.49999999999999933])]
+    for sfs_c, vals_c in corpus:
+        for ex_name, ex in (("exp1", Z.create_exp_extrapolate(1)), ("exp2", Z.create_exp_extrapolate(2)),
+                            ("exp_const1", Z.create_exp_extrapolate_with_const(1, vals_c[0] - 0.3)),
+                            ("poly2", Z.create_polynomial_extrapolate(2))):
+            res.count(("zne-corpus", ex_name, tuple(vals_c)), bucket="zne:corpus")
+            try:
+                v = ex(sfs_c, vals_c)
+                if not abs(v - vals_c[0]) <= 1e-6:
+                    res.fail(f"sweep:zne:{ex_name}:noiseless_series", f"extrapolates the constant series {vals_c[0]} to {v}",
+                             {"scale_factors": sfs_c, "values": vals_c})
+            except Exception as e:  # noqa: BLE001
+                res.fail(f"crash:zne:{ex_name}:noiseless_series", f"{type(e).__name__}: {str(e)[:160]}",
+                         {"scale_factors": sfs_c, "values": vals_c})
     # ---- ZNE on a noiseless estimator
     try:
         from quri_parts.core.operator import Operator, pauli_label
